@@ -1,7 +1,12 @@
 (* Properties/C17.v - Form, multipart and marshalled bodies round-trip; progress callbacks truthful.
    Only statements, `exact`, and Print Assumptions.
-   Model: Model/Form.v, Model/ReqBody.v. *)
-From ReqV Require Import Lib.Bytes Model.Form Model.ReqBody Proofs.FormProofs.
+   Model: Model/Form.v, Model/Multipart.v, Model/ReqBody.v, Model/Progress.v (+ Gen/PayloadForbid.v,
+   Gen/ContentTypes.v regenerated from the Go source). *)
+From Coq Require Import ZArith.
+From ReqV Require Import Lib.Bytes Model.Form Model.Multipart Model.ReqBody Model.Progress
+  Proofs.FormProofs Proofs.MultipartProofs Proofs.ReqBodyProofs Proofs.ProgressProofs.
+
+(* ------------------------------------------------------------------ url-encoded forms *)
 
 (* QueryUnescape inverts QueryEscape on every byte string *)
 Theorem C17_unescape_escape : forall s, query_unescape (query_escape s) = Some s.
@@ -31,7 +36,7 @@ Theorem C17_merged_form_roundtrip : forall rf cf,
 Proof. exact merged_form_roundtrip. Qed.
 Print Assumptions C17_merged_form_roundtrip.
 
-(* ordered form data: the exact list of pairs, in order *)
+(* ordered form data: the exact list of pairs, in order; every string supplied is carried *)
 Theorem C17_ordered_roundtrip : forall kvs body,
   encode_ordered kvs = Some body ->
   parse_query body = (pair_up kvs, false) /\
@@ -39,10 +44,175 @@ Theorem C17_ordered_roundtrip : forall kvs body,
 Proof. exact ordered_roundtrip. Qed.
 Print Assumptions C17_ordered_roundtrip.
 
-Theorem C17_ordered_refused_iff_odd : forall kvs,
-  encode_ordered kvs = None <-> Nat.odd (length kvs) = true.
-Proof. exact ordered_refused_iff_odd. Qed.
-Print Assumptions C17_ordered_refused_iff_odd.
+(* the url-encoded branch of parseRequestBody as a whole (ordered, plain, both levels, any mix):
+   ordered pairs in order, then the plain data; nothing supplied is lost, nothing invented *)
+Theorem C17_form_body_pairs : forall rf cf ord b,
+  form_plan_of rf cf ord = FBody b ->
+  parse_query b = (pair_up ord ++ flatten (sort_form (merged_form rf cf)), false).
+Proof. exact form_body_pairs. Qed.
+Print Assumptions C17_form_body_pairs.
+
+Theorem C17_form_body_roundtrip : forall rf cf ord b,
+  NoDup (map fst rf) ->
+  form_plan_of rf cf ord = FBody b ->
+  snd (parse_query b) = false /\
+  forall k, values_of k (parse_form b) = values_of k (pair_up ord) ++ lookup k rf ++ lookup k cf.
+Proof. exact form_body_roundtrip. Qed.
+Print Assumptions C17_form_body_roundtrip.
+
+(* an odd number of ordered strings is refused (and only that) *)
+Theorem C17_form_refused_iff_odd : forall rf cf ord,
+  form_plan_of rf cf ord = FBadOrdered <-> Nat.odd (length ord) = true.
+Proof. exact form_refused_iff. Qed.
+Print Assumptions C17_form_refused_iff_odd.
+
+(* ------------------------------------------------------------------ multipart *)
+
+(* every sequence of parts the writer emits is read back exactly, in order - any number of parts;
+   the hypotheses are visible: SetBoundary's character set, header bytes textproto accepts,
+   CRLF--boundary occurs in no part body *)
+Theorem C17_parse_render : forall b ps,
+  boundary_chars b = true -> forallb (part_ok b) ps = true ->
+  parse_multipart b (render_multipart b ps) = Some ps.
+Proof. exact parse_render. Qed.
+Print Assumptions C17_parse_render.
+
+(* fields, then files in order, with the names, file names, content types (given or sniffed) and
+   bytes supplied; any number of files.  field_ok / file_ok: names without control bytes,
+   CRLF--boundary in no value / file content, content type made of header-value bytes *)
+Theorem C17_multipart_roundtrip : forall sniff b fields files,
+  boundary_chars b = true ->
+  forallb (field_ok b) fields = true ->
+  forallb (file_ok sniff b) files = true ->
+  parse_form_parts b (multipart_body sniff b fields files) =
+  Some (map field_view fields ++ map (file_view sniff) files).
+Proof. exact multipart_roundtrip. Qed.
+Print Assumptions C17_multipart_roundtrip.
+
+(* a file name can never change the part structure: whatever bytes it holds, its quoted form
+   consists of bytes a header value may carry (no CR, LF, NUL ...) *)
+Theorem C17_quoted_name_is_header_safe : forall s, forallb valid_hv (go_quote s) = true.
+Proof. exact go_quote_valid. Qed.
+Print Assumptions C17_quoted_name_is_header_safe.
+
+(* names without control bytes survive quoting and the server's unquoting *)
+Theorem C17_unquote_quote : forall s r,
+  name_ok s = true -> unquote (flat_map quote_byte s ++ dquote :: r) = Some (s, r).
+Proof. exact unquote_quote. Qed.
+Print Assumptions C17_unquote_quote.
+
+(* the boundary parameter of the request's Content-Type is the boundary of the body *)
+Theorem C17_content_type_names_boundary : forall b,
+  valid_boundary b = true -> parse_boundary_param (form_data_content_type b) = Some b.
+Proof. exact content_type_names_boundary. Qed.
+Print Assumptions C17_content_type_names_boundary.
+
+(* ------------------------------------------------------------------ dispatch *)
+
+(* HEAD, OPTIONS, and GET unless AllowGetMethodPayload: no payload whatever was configured *)
+Theorem C17_forbidden_methods_send_nothing : forall sniff q,
+  payload_forbidden (q_method q) (q_allow_get q) = true -> plan_of sniff q = PNone.
+Proof. exact forbidden_methods_send_nothing. Qed.
+Print Assumptions C17_forbidden_methods_send_nothing.
+
+Theorem C17_head_options_get_send_nothing : forall sniff q,
+  q_method q = bs "HEAD" \/ q_method q = bs "OPTIONS" \/
+  (q_method q = bs "GET" /\ q_allow_get q = false) ->
+  plan_of sniff q = PNone.
+Proof. exact head_options_get_send_nothing. Qed.
+Print Assumptions C17_head_options_get_send_nothing.
+
+(* the table regenerated from isPayloadForbid is exactly that set *)
+Theorem C17_payload_forbidden_spec : forall m allow,
+  payload_forbidden m allow =
+  (bytes_eqb (bs "GET") m && negb allow) || bytes_eqb (bs "HEAD") m || bytes_eqb (bs "OPTIONS") m.
+Proof. exact payload_forbidden_spec. Qed.
+Print Assumptions C17_payload_forbidden_spec.
+
+(* a prepared body comes under the Content-Type that describes it *)
+Theorem C17_content_type_matches_body : forall sniff q ct body,
+  valid_boundary (q_random_boundary q) = true ->
+  plan_of sniff q = PBody ct body ->
+  (q_multipart q = false /\ ct = form_ct /\ snd (parse_query body) = false) \/
+  (q_multipart q = true /\
+   let b := effective_boundary (q_custom_boundary q) (q_random_boundary q) in
+   parse_boundary_param ct = Some b /\
+   body = multipart_body sniff b (multipart_fields q) (q_files q)).
+Proof. exact content_type_matches_body. Qed.
+Print Assumptions C17_content_type_matches_body.
+
+(* a multipart request as a whole: the boundary named in Content-Type frames a body that reads
+   back as the ordered pairs, the plain form data of both levels, and the files in order *)
+Theorem C17_multipart_request_roundtrip : forall sniff q ct body,
+  valid_boundary (q_random_boundary q) = true ->
+  plan_of sniff q = PBody ct body -> q_multipart q = true ->
+  let b := effective_boundary (q_custom_boundary q) (q_random_boundary q) in
+  forallb (field_ok b) (multipart_fields q) = true ->
+  forallb (file_ok sniff b) (q_files q) = true ->
+  parse_boundary_param ct = Some b /\
+  parse_form_parts b body =
+  Some (map field_view (multipart_fields q) ++ map (file_view sniff) (q_files q)).
+Proof. exact multipart_request_roundtrip. Qed.
+Print Assumptions C17_multipart_request_roundtrip.
+
+(* marshalled values: XML iff the effective Content-Type says xml; the JSON content type is
+   set exactly when the caller gave none, and then the body is JSON *)
+Theorem C17_marshaller_matches_content_type : forall rct cct m ct,
+  choose_marshaller rct cct = (m, ct) ->
+  let preset := match rct with [] => cct | _ => rct end in
+  let eff := match ct with Some c => c | None => preset end in
+  (m = MXml <-> is_xml_type eff = true) /\
+  (ct = None <-> preset <> []) /\
+  (forall c, ct = Some c -> c = json_ct /\ m = MJson).
+Proof. exact marshaller_matches_content_type. Qed.
+Print Assumptions C17_marshaller_matches_content_type.
+
+(* ------------------------------------------------------------------ progress callbacks *)
+
+(* uploads, for every chunking, clock, interval and declared size: reported counts strictly
+   increase and never exceed what was really written *)
+Theorem C17_upload_progress_monotone_bounded : forall total interval evs st,
+  incr_above (w_written st) (run_writer total interval st evs) /\
+  Forall (fun r => (r <= w_written st + written_total evs)%Z) (run_writer total interval st evs).
+Proof. exact upload_progress_monotone_bounded. Qed.
+Print Assumptions C17_upload_progress_monotone_bounded.
+
+(* ... and when the declared size is the true size (> 0) the last report is exactly it *)
+Theorem C17_upload_progress_final : forall total interval t0 evs,
+  written_total evs = total -> (0 < total)%Z ->
+  exists p, run_writer total interval (w0 t0) evs = p ++ [total].
+Proof. exact upload_progress_final. Qed.
+Print Assumptions C17_upload_progress_final.
+
+(* downloads, for every chunking, clock and interval *)
+Theorem C17_download_progress_monotone_bounded : forall interval evs st,
+  (r_lastread st <= r_read st)%Z ->
+  incr_above (r_lastread st) (run_reader interval st evs) /\
+  Forall (fun r => (r <= r_read st + read_total evs)%Z) (run_reader interval st evs).
+Proof. exact download_progress_monotone_bounded. Qed.
+Print Assumptions C17_download_progress_monotone_bounded.
+
+(* ... a body read to EOF: the last report is the number of bytes delivered (if any) *)
+Theorem C17_download_progress_final : forall interval t0 pre n now,
+  let evs := pre ++ [(n, true, now)] in
+  (0 < read_total evs)%Z ->
+  exists p, run_reader interval (r0 t0) evs = p ++ [read_total evs].
+Proof. exact download_progress_final. Qed.
+Print Assumptions C17_download_progress_final.
+
+(* whatever the clock: the reports are a sub-sequence of the running byte totals (this is what
+   the checker applies where the harness cannot observe the clock) *)
+Theorem C17_upload_any_clock : forall total interval evs st,
+  subseq (run_writer total interval st evs) (running (w_written st) (map fst evs)) = true.
+Proof. exact upload_any_clock. Qed.
+Print Assumptions C17_upload_any_clock.
+
+Theorem C17_download_any_clock : forall interval t0 evs,
+  subseq (run_reader interval (r0 t0) evs) (running 0 (map (fun e => fst (fst e)) evs)) = true.
+Proof. exact download_any_clock. Qed.
+Print Assumptions C17_download_any_clock.
+
+(* ------------------------------------------------------------------ non-vacuity *)
 
 Example C17_nonvacuous :
   let m := [(bs "b k", [bs "1&2"; bs "=%"]); (bs "a", [bs "x y"])] in
@@ -53,3 +223,24 @@ Proof.
   cbn zeta. split; [|split; vm_compute; reflexivity].
   repeat constructor; cbn; intuition discriminate.
 Qed.
+
+(* the multipart hypotheses are met by a request with fields, quoting-needing names, two files *)
+Example C17_multipart_nonvacuous :
+  let sniff := fun _ : bytes => bs "application/octet-stream" in
+  let b := bs "XyZ" in
+  let fields := [(bs "k ""q""", bs "v1"); (bs "", bs "--XyZ")] in
+  let files := [ {| f_param := bs "file"; f_name := bs "a""b\c.txt"; f_ctype := []; f_extra := [];
+                    f_content := bs "hello"; f_first := 5 |};
+                 {| f_param := bs "file"; f_name := bs "é.bin"; f_ctype := bs "text/plain"; f_extra := [];
+                    f_content := []; f_first := 0 |} ] in
+  boundary_chars b = true /\ forallb (field_ok b) fields = true /\
+  forallb (file_ok sniff b) files = true /\
+  parse_form_parts b (multipart_body sniff b fields files) =
+  Some (map field_view fields ++ map (file_view sniff) files).
+Proof. cbn zeta. repeat split; vm_compute; reflexivity. Qed.
+
+Example C17_progress_nonvacuous :
+  run_writer 1536 1000 (w0 0) [(512, 10); (0, 20); (512, 30); (512, 2000)]%Z = [1536]%Z /\
+  run_reader 0 (r0 0) [(512, false, 1); (100, false, 2); (0, true, 3)]%Z = [512; 612]%Z /\
+  run_reader 1000 (r0 0) [(512, false, 1); (100, false, 2); (0, true, 3)]%Z = [612]%Z.
+Proof. repeat split; vm_compute; reflexivity. Qed.
